@@ -28,11 +28,13 @@ TIMEOUT = {"quick": 400, "thorough": 2400}
 
 def cases(tier, seed):
     n = 10 if tier == "quick" else 200
-    cs = workload.reader_population(n, seed + 400, payloads=("random",), max_levels=3, max_fields=3)
+    cs = workload.reader_population(n, seed + 400, payloads=("random", "special"), max_levels=3, max_fields=3)
     out = []
     K = 4
     for i, c in enumerate(cs):
         c["sel_seed"] = seed * 17 + i
+        if i % 3 == 1:      # the last field is +0.0 everywhere: the bytes in front of every FAB header but the first are NUL
+            c["zero_last"] = True
         c["gen"]["base_blocks"] = (1, 2) if c["gen"]["bf"] >= 4 else (2, 3)
         c["pairs"] = (30 if tier == "quick" else 60) // K
         for k in range(K):
